@@ -33,9 +33,9 @@ def generate(tier, rng):
     for _ in range(nrand):
         sc = gen.pick_scale(rng, decimal_share=0.5)
         if rng.random() < 0.8:
-            t = gen.random_itier(rng, tmax=60 if sc[0] == "dyadic" else 3000, maxn=8, long_p=0.015)
+            t = gen.random_itier(rng, tmax=60 if sc[0] == "dyadic" else 3000, maxn=8, long_p=0.025)
         else:
-            t = gen.random_ptier(rng, tmax=60 if sc[0] == "dyadic" else 3000, long_p=0.015, distinct=rng.random() < 0.75)
+            t = gen.random_ptier(rng, tmax=60 if sc[0] == "dyadic" else 3000, long_p=0.025, distinct=rng.random() < 0.75)
         lo, hi = t["min"], t["max"]
         a, b = rng.randint(lo, hi), rng.randint(lo, hi)
         if t["entries"] and rng.random() < 0.5:
